@@ -122,7 +122,7 @@ func c18Class(f string) string {
 }
 
 func init() {
-	fw.Register(&fw.Prop{
+	register(&fw.Prop{
 		ID: "C18",
 		Rule: "every format string of length <= L over the symbols % s f v d - 0 3 x, times 15 argument lists, plus a width sweep across the 65536 limit, width numerals beyond every integer type, bytes that are not ASCII where the directive letter belongs; format literals of 65 535 ... 131 080 bytes; 6 programs whose printf runs the same printf again inside a later argument, once per record; printf lists read, effect, read of one scalar location (the printf programs of C09's copy-time family); " +
 			"a state is a directive-shape class of a format (e.g. %-ws%0wv); non-trivial = classes the model formats successfully with at least one argument list; each case compares exact stdout and outcome with the reference formatter",
